@@ -4,7 +4,29 @@ from lib import common
 from checks.searchfam import run_harness_scenarios, pinned
 
 
-def run_family(ctx, n_app, n_sink, maxq):
+def run_cli(ctx, n_cli, pid):
+    """the command line runner (Cli.tla): model checking of every invocation within the bounds, then real invocations
+    of command_line_runner judged by Trace_Cli.tla"""
+    quick = ctx.tier == "quick"
+    ctx.mc("MC_Cli", "MC_Cli.cfg" if quick else "MC_Cli_t.cfg", timeout=3000, workers=8 if quick else None)
+    ctx.mc("MC_Cli", "MC_Cli_live.cfg", timeout=900, workers=4, require_actions=False)
+    scns = []
+    if pid == "C19":
+        scns += run_harness_scenarios(ctx, "cli", [p["scenario"] for p in pinned(ctx, "cli")])
+    out = ctx.harness(["cli", "--random", str(n_cli)] + ([] if pid == "C19" else ["--sorted-csv-only"]), timeout=3000)
+    scns += common.split_scenarios(out)
+    for s, evs in scns:
+        if s.get("has") and s.get("nd") and s.get("n", 0) >= 1 and len(s.get("lines", [])) > s["n"] and s.get("fmt") != "none":
+            ctx.note_nontrivial(common.chash(s))
+    for s, evs in scns[:1]:
+        ctx.sample({"scenario": {k: v for k, v in s.items() if k != "net"}, "events": [e for e in evs if e["ev"] in ("CliStart", "CliReturned", "CliEnd")][:3]})
+    ctx.validate("Trace_Cli", scns, label="command line invocations")
+    ctx.assumptions += [
+        "command line runner: records of the response file are attributed to queries by the `qid` member the generated queries carry; JSON records are compared with the response the query produces alone, ignoring wall-clock stamps and the (unspecified) state-vector slot order",
+    ]
+
+
+def run_family(ctx, n_app, n_sink, maxq, n_cli=0):
     quick = ctx.tier == "quick"
     ctx.build()
     for cfg in ("MC_Batch_TRUE_TRUE.cfg", "MC_Batch_TRUE_FALSE.cfg", "MC_Batch_FALSE_TRUE.cfg"):
@@ -24,6 +46,8 @@ def run_family(ctx, n_app, n_sink, maxq):
     for s, evs in scns[:1] + scns[-1:]:
         ctx.sample({"scenario": {k: v for k, v in s.items() if k != "net"}, "events": [e for e in evs if e["ev"] in ("Balanced", "Returned", "SinkEnd")][:2]})
     ctx.validate("Trace_Batch", scns, label="batches / sink runs")
+    if n_cli:
+        run_cli(ctx, n_cli, ctx.pid)
     ctx.assumptions += [
         "thread schedules of the real pool are sampled (parallelism 1..8, repetitions, 2..16 barrier-released threads on the sink); exhaustive interleavings exist on the model only",
         "responses are compared on request echo, success/error, route cost, final distance/time and a hash of the error value",
